@@ -1,19 +1,29 @@
 (* C08 — correspondence / property evaluation on what the implementation returned.
-   Executable only. *)
+   Executable only.
+
+   A case is the sequence of CALLS served, in order, by one process.  A call is one entry point
+   of go-zero: mapping.UnmarshalJsonBytes / UnmarshalKey / Unmarshaler.Unmarshal, the yaml and
+   toml front ends, httpx.ParseForm / ParsePath / ParseHeaders / ParseJsonBody (one pass each),
+   or httpx.Parse (the passes path, form, header, json body over the fields tagged for each, then
+   the request validator).  Every pass carries the key semantics of its unmarshaller ([kcfg]:
+   opaque or chained keys), its view of the struct type, its own document, and the observed
+   projection of the target onto its fields. *)
 From Coq Require Import List ZArith Bool String Ascii.
-From GZ Require Export C08.Model C08.Spec.
+From GZ Require Export C08.Model C08.Spec C08.KModel C08.KSpec.
 Import ListNotations.
 Open Scope Z_scope.
 
 Inductive verdict := VOk | VErr | VPanic.
 
-(* one request as observed *)
-Record step := mkCase
-  { c_cfg : ucfg;
-    c_type : fields;             (* the struct type built with reflect.StructOf *)
-    c_doc : option jv;           (* None: a stream the JSON decoder rejects *)
-    c_verdict : verdict;         (* observed: nil error / error / recovered panic *)
-    c_val : option gval }.       (* observed canonical dump of the target (verdict ok) *)
+Record opass := mkOPass
+  { op_pass : pass;
+    op_val : option gval }.      (* observed canonical dump of this pass's fields (verdict ok) *)
+
+Record ocall := mkOCall
+  { oc_passes : list opass;
+    oc_validator : option bool;  (* httpx.SetValidator: Some b = installed, accepts iff b *)
+    oc_called : bool;            (* observed: the validator ran *)
+    oc_verdict : verdict }.      (* observed: nil error / error / recovered panic *)
 
 Fixpoint gval_eqb (a b : gval) {struct a} : bool :=
   match a, b with
@@ -49,56 +59,77 @@ Fixpoint gval_eqb (a b : gval) {struct a} : bool :=
   end.
 
 (* the generator only emits types of the modelled fragment; anything else is skipped (and counted) *)
-Definition in_scope (c : step) : bool := fields_ok (c_type c).
+Definition in_scope (c : ocall) : bool := forallb (fun p => fields_okK (p_type (op_pass p))) (oc_passes c).
 
-(* a case: the requests served, in order, by one process (usually a single one) *)
-Definition case := list step.
+Definition case := list ocall.
 
-Definition req_of (c : step) : request := mkReq (c_cfg c) (c_type c) (c_doc c).
-Definition model_obs (cs : case) : list (result gval) := run_requests fixed (map req_of cs).
+Definition call_of (c : ocall) : call := mkCall (map op_pass (oc_passes c)) (oc_validator c).
+Definition model_obs (cs : case) : list cresult := run_calls (map call_of cs).
 
-(* the model reproduces the implementation's verdict and decoded value *)
-Definition agrees1 (m : result gval) (c : step) : bool :=
+Definition is_some {A} (o : option A) : bool := match o with Some _ => true | None => false end.
+
+Fixpoint vals_agree (vs : list gval) (ps : list opass) : bool :=
+  match vs, ps with
+  | [], [] => true
+  | v :: vs', p :: ps' =>
+    match op_val p with Some w => gval_eqb v w | None => false end && vals_agree vs' ps'
+  | _, _ => false
+  end.
+
+(* the model reproduces the implementation's verdict, decoded values and validator call *)
+Definition agrees1 (m : cresult) (c : ocall) : bool :=
   if in_scope c then
-    match m, c_verdict c, c_val c with
-    | Ok v, VOk, Some w => gval_eqb v w
-    | Err _, VErr, _ => true
-    | Panic, VPanic, _ => true
-    | _, _, _ => false
+    match m, oc_verdict c with
+    | CAccepted vs, VOk => vals_agree vs (oc_passes c) && Bool.eqb (oc_called c) (is_some (oc_validator c))
+    | CRejected by_validator, VErr => Bool.eqb (oc_called c) by_validator
+    | CPanic, VPanic => true
+    | _, _ => false
     end
   else true.
 
-(* the property, evaluated directly on (type, document, observed verdict and value):
-   accepted  => all declared constraints hold of the document (accept_sound) and the target is
-                exactly the typed decoding with defaults (accept_exact);
-   rejected  => the document is ill-typed or misses a constraint (accept_complete);
-   a panic is always a failure (total). *)
-Definition prop_ok1 (c : step) : bool :=
+(* one pass against ITS OWN document: the typed decoding exists, is what was observed, and
+   every declared constraint holds *)
+Definition pass_sound (p : opass) : bool :=
+  let q := op_pass p in
+  match decodeK (p_kc q) (p_type q) (p_doc q), op_val p with
+  | Some v, Some w => gval_eqb v w && meetsK (p_kc q) (p_type q) (p_doc q)
+  | _, _ => false
+  end.
+
+Definition pass_valid (p : opass) : bool := pass_fine (op_pass p).
+
+(* the property, evaluated directly on (types, documents, observed verdict and values):
+   accepted  => for every pass all declared constraints hold of its document and its fields hold
+                exactly the typed decoding with defaults; an installed validator ran and accepted;
+   rejected  => some pass's document is ill-typed or misses a constraint (and then the validator
+                did not run), or every pass is fine and the installed validator ran and rejected;
+   a panic is always a failure. *)
+Definition prop_ok1 (c : ocall) : bool :=
   if in_scope c then
-    match c_verdict c with
+    match oc_verdict c with
     | VPanic => false
     | VOk =>
-      match decode (c_cfg c) (c_type c) (c_doc c), c_val c with
-      | Some v, Some w => gval_eqb v w && meets (c_cfg c) (c_type c) (c_doc c)
-      | _, _ => false
+      forallb pass_sound (oc_passes c) &&
+      match oc_validator c with
+      | Some b => b && oc_called c
+      | None => negb (oc_called c)
       end
     | VErr =>
-      negb (match decode (c_cfg c) (c_type c) (c_doc c) with
-            | Some _ => meets (c_cfg c) (c_type c) (c_doc c)
-            | None => false
-            end)
+      if forallb pass_valid (oc_passes c)
+      then match oc_validator c with Some false => oc_called c | _ => false end
+      else negb (oc_called c)
     end
   else true.
 
-Fixpoint agrees_all (ms : list (result gval)) (cs : list step) : bool :=
+Fixpoint agrees_all (ms : list cresult) (cs : list ocall) : bool :=
   match ms, cs with
   | [], [] => true
   | m :: ms', c :: cs' => agrees1 m c && agrees_all ms' cs'
   | _, _ => false
   end.
 
-(* every request of the sequence against the model of the whole sequence *)
+(* every call of the sequence against the model of the whole sequence *)
 Definition agrees (cs : case) : bool := agrees_all (model_obs cs) cs.
 
-(* every request against ITS OWN document only *)
+(* every call against ITS OWN documents only *)
 Definition prop_ok (cs : case) : bool := forallb prop_ok1 cs.
